@@ -59,8 +59,14 @@ func (x *exec) menu(core bool) []string {
 		if pend {
 			m = append(m, "r:success", "r:403")
 		}
+		if x.m.appClosed && x.old == nil && !pend && x.reader == nil && x.pendingWriters() == 0 && len(x.writers) == 0 {
+			m = append(m, "realloc")
+		}
 
 		return append(m, "in:data:P1", "adv:2s")
+	}
+	if x.old != nil && !x.oldAgain {
+		m = append(m, "close-old")
 	}
 	if free("P1") {
 		m = append(m, "w:P1", "w:P1b")
